@@ -127,7 +127,7 @@ NO_STRATEGY = {'groupcountdistinctvalues', 'recast'}      # these take no strate
 
 RULE = RULE % len(OPS)
 REQUIRED = (['op:' + o for o in OPS] + ['chunked-path-taken', 'in-memory-path-taken', 'presorted', 'tempdir', 'config.sort_buffersize',
-            'history:cache-off-edit-reflected', 'history:cache-on-replayed-after-edit', 'history:cached-sources-not-reopened', 'history:pass-with-failing-source', 'history:header-edited'])
+            'history:cache-off-edit-reflected', 'history:cache-on-replayed-after-edit', 'history:cached-sources-not-reopened', 'history:pass-with-failing-source', 'history:header-edited', 'history:inputs-are-uncached-sort-views-on-the-same-key'])
 
 KEYS = [None, 1, 2, 1.0, 'a', 'b', (1, 2), 3, 0, '', ()]
 
@@ -315,7 +315,15 @@ def _judge_history(case, ctx, spec):
             kw['buffersize'] = case['buffersize']
     else:
         return None            # no cache argument: the cache clause makes no claim
-    res = spec['fn'](srcs, **kw)
+    ins = srcs
+    ps = spec['presort']
+    if (ps is not None and all(k is not None for k in ps) and spec['pad'] is None and spec['marker'] is None
+            and int(util.fp(case)[4:6], 16) % 5 == 0 and 'rename' not in [st[0] for st in case['steps']]):
+        # the operator's inputs are themselves uncached sort views on the operator's own key: the operator's cache argument
+        # still decides whether later passes replay the completed one or read the sources again
+        ins = [petl.sort(s_, k_, cache=False) for s_, k_ in zip(srcs, ps)]
+        ctx.seen('history:inputs-are-uncached-sort-views-on-the-same-key')
+    res = spec['fn'](ins, **kw)
     views = list(res) if spec['kind'] == 'multi' else [res]
     out = []
     completed = None            # canon of the first completed pass (cache=True)
